@@ -94,6 +94,11 @@ type Call struct {
 	IDs []uint64 `json:"ids"`
 }
 
+type CutRec struct {
+	At   uint64 `json:"at"`
+	Hang bool   `json:"hang,omitempty"` // the request was scripted never to be answered
+}
+
 type Obs struct {
 	Panic   bool     `json:"panic,omitempty"`
 	PanicAt string   `json:"panic_text,omitempty"`
@@ -103,7 +108,7 @@ type Obs struct {
 	Nodes   [][]Call `json:"nodes,omitempty"`
 	// per node: the instants at which a request to it was abandoned because the context vouch made
 	// it with was finished (refused at entry or cut short while in flight), before the scenario's end
-	Cut [][]uint64 `json:"cut,omitempty"`
+	Cut [][]CutRec `json:"cut,omitempty"`
 	// scatter
 	GoMax   int      `json:"gomax,omitempty"`
 	ScErr   bool     `json:"scatter_error,omitempty"`
@@ -240,15 +245,15 @@ type nodeCore struct {
 	proposal *api.VersionedSignedProposal
 	firstSeq int
 	calls    []Call
-	cuts     []uint64
+	cuts     []CutRec
 }
 
 // noteCut: a request to this node ended because its context was finished by the submitter (the
 // harness finishes the scenario's own context only after rec.closed is set).
-func (n *nodeCore) noteCut() {
+func (n *nodeCore) noteCut(hang bool) {
 	n.rec.mu.Lock()
 	if !n.rec.closed && !n.rec.warming {
-		n.cuts = append(n.cuts, uint64(time.Since(n.rec.start)/time.Millisecond))
+		n.cuts = append(n.cuts, CutRec{At: uint64(time.Since(n.rec.start) / time.Millisecond), Hang: hang})
 	}
 	n.rec.mu.Unlock()
 }
@@ -282,7 +287,7 @@ func (n *nodeCore) do(ctx context.Context, ids []uint64) error {
 	if err := ctx.Err(); err != nil {
 		if !n.rec.warming {
 			n.touchLocked()
-			n.cuts = append(n.cuts, uint64(time.Since(n.rec.start)/time.Millisecond))
+			n.cuts = append(n.cuts, CutRec{At: uint64(time.Since(n.rec.start) / time.Millisecond)}) // never reached the node, whatever its script
 		}
 		n.rec.mu.Unlock()
 		return err
@@ -296,7 +301,7 @@ func (n *nodeCore) do(ctx context.Context, ids []uint64) error {
 	if b.Hang {
 		select {
 		case <-ctx.Done():
-			n.noteCut()
+			n.noteCut(true)
 			return ctx.Err()
 		case <-n.rec.release:
 			return errors.New("scenario over")
@@ -309,7 +314,7 @@ func (n *nodeCore) do(ctx context.Context, ids []uint64) error {
 		case <-tm.C:
 		case <-ctx.Done():
 			tm.Stop()
-			n.noteCut()
+			n.noteCut(false)
 			return ctx.Err()
 		}
 	}
@@ -660,10 +665,11 @@ func runSubmit(t *testing.T, in Input) Obs {
 			sort.SliceStable(cs, func(a, b int) bool { return first(cs[a]) < first(cs[b]) })
 			obs.Nodes[i] = cs
 		}
-		obs.Cut = make([][]uint64, len(cores))
+		obs.Cut = make([][]CutRec, len(cores))
 		for i, c := range cores {
-			obs.Cut[i] = append([]uint64{}, c.cuts...)
-			sort.Slice(obs.Cut[i], func(a, b int) bool { return obs.Cut[i][a] < obs.Cut[i][b] })
+			cs := append([]CutRec{}, c.cuts...)
+			sort.SliceStable(cs, func(a, b int) bool { return cs[a].At < cs[b].At || (cs[a].At == cs[b].At && !cs[a].Hang && cs[b].Hang) })
+			obs.Cut[i] = cs
 		}
 	})
 	return obs
@@ -996,8 +1002,12 @@ func term(id uint64, in Input, obs Obs) string {
 			onodes = append(onodes, List(ct))
 		}
 		ocut := make([]string, 0, len(obs.Cut))
-		for _, ts := range obs.Cut {
-			ocut = append(ocut, idsTerm(ts))
+		for _, cs := range obs.Cut {
+			ct := make([]string, 0, len(cs))
+			for _, c := range cs {
+				ct = append(ct, Pair(N(c.At), Bool(c.Hang)))
+			}
+			ocut = append(ocut, List(ct))
 		}
 		o := Record("o_panic", Bool(obs.Panic), "o_success", Bool(obs.Success), "o_ret", N(obs.Ret), "o_nodes", List(onodes),
 			"o_cut", List(ocut))
@@ -1576,7 +1586,7 @@ func TestC08(t *testing.T) {
 		return
 	}
 	col := NewCollector("C08", "Check.C08",
-		"submit scenarios: kind x 1-5 scripted nodes (accept / reject with a structured error body / slow / hang, per chunk for attestations) x concurrency x payload length, run on the real multinode service in a synctest bubble; plus util.Scatter and the immediate submitter. Non-trivial = the submission passes the empty-payload guard and at least one node does something other than accept before the timeout (scatter/immediate: non-empty input); distinct by input text")
+		"submit scenarios: kind x 1-5 scripted nodes (accept / reject with a structured error body / slow / hang, per chunk for attestations; every method fails with the context's error once its context is finished) x concurrency x payload length, run on the real multinode service in a synctest bubble; plus util.Scatter and the immediate submitter. Non-trivial = the submission passes the empty-payload guard and at least one node does something other than accept before the timeout (scatter/immediate: non-empty input); distinct by input text")
 	n := EnvInt("VERIF_N", 800)
 	thorough := os.Getenv("VERIF_TIER") == "thorough"
 	var ins []Input
